@@ -189,6 +189,8 @@ class Fault:
         ok = ok_response(tok, method)
         if k == "ok":
             return "readfull;send:%s;done" % hx(ok_response(tok, method, **CLEAN_VARIANTS[self.cls or "ok"]))
+        if k == "ok-slow":                              # healthy but slow: answers after pos ms
+            return "readfull;sleep:%d;send:%s;done" % (p, hx(ok))
         if k == "rst-before-read":
             return "rst"
         if k == "rst-unread-request":
@@ -247,16 +249,18 @@ class Fault:
 
 # ------------------------------------------------------------------------------ case objects
 class Req:
-    def __init__(self, method, budget, faults, stop=None, th=0, refuse=0, blackhole=0, gap=0, big=0, via="auto"):
+    def __init__(self, method, budget, faults, stop=None, th=0, refuse=0, blackhole=0, gap=0, big=0, via="auto", srv=0, pre=0):
         # faults: list of Fault for attempts 0,1,2,… (last repeats). stop is informational.
         self.method, self.budget, self.faults, self.stop = method, budget, faults, stop
         self.th, self.refuse, self.blackhole, self.gap, self.big, self.via = th, refuse, blackhole, gap, big, via
+        self.srv, self.pre = srv, pre
         self.token = None
 
 
 class Case:
-    def __init__(self, group, reqs, rt=LONG_RT, ct=1000, ka=1, th=1, ident="cur", hold=None, rcvbuf=0, cap=0, wd=45000):
+    def __init__(self, group, reqs, rt=LONG_RT, ct=1000, ka=1, th=1, ident="cur", hold=None, rcvbuf=0, cap=0, wd=45000, nsrv=1, lease=0):
         self.group, self.reqs = group, reqs
+        self.nsrv, self.lease = nsrv, lease
         self.rt, self.ct, self.ka, self.th, self.ident, self.rcvbuf, self.cap, self.wd = rt, ct, ka, th, ident, rcvbuf, cap, wd
         self.hold = hold if hold is not None else (rt + 8000 if rt < 5000 else 4000)
         self.id = None
@@ -264,7 +268,8 @@ class Case:
     def assign(self, n):
         self.id = "Q%0*d" % (ID_WIDTH - 1, n)
         for i, r in enumerate(self.reqs):
-            r.token = "T%05dr%d" % (n % 100000, i % 10) if len(self.reqs) <= 10 else "T%05dr%02d" % (n % 100000, i)
+            r.token = ("T%05dr%d" % (n % 100000, i) if len(self.reqs) <= 10 else
+                       "T%05dr%02d" % (n % 100000, i) if len(self.reqs) <= 100 else "T%05dr%03d" % (n % 100000, i))
 
     def silent(self):
         return any(f.silent() for r in self.reqs for f in r.faults) or any(r.blackhole for r in self.reqs)
@@ -275,24 +280,26 @@ class Case:
             c += 4
         if any(r.big for r in self.reqs):
             c += 3
-        return c + len(self.reqs) // 3
+        return c + min(len(self.reqs) // 3, 12)
 
     def render(self):
-        L = ["case id=%s rt=%d ct=%d ka=%d th=%d ident=%s hold=%d rcvbuf=%d cap=%d wd=%d sdiv=10" %
-             (self.id, self.rt, self.ct, self.ka, self.th, self.ident, self.hold, self.rcvbuf, self.cap, self.wd)]
+        L = ["case id=%s rt=%d ct=%d ka=%d th=%d ident=%s hold=%d rcvbuf=%d cap=%d wd=%d sdiv=10 nsrv=%d lease=%d" %
+             (self.id, self.rt, self.ct, self.ka, self.th, self.ident, self.hold, self.rcvbuf, self.cap, self.wd, self.nsrv, self.lease)]
         for i, r in enumerate(self.reqs):
-            L.append("req i=%d th=%d m=%s b=%d tok=%s body=%d refuse=%d blackhole=%d gap=%d via=%s" %
-                     (i, r.th, r.method, r.budget, r.token, body_len(r.method, r.big), r.refuse, r.blackhole, r.gap, r.via))
+            L.append("req i=%d th=%d m=%s b=%d tok=%s body=%d refuse=%d blackhole=%d gap=%d via=%s srv=%d pre=%d" %
+                     (i, r.th, r.method, r.budget, r.token, body_len(r.method, r.big), r.refuse, r.blackhole, r.gap, r.via, r.srv, r.pre))
             for a, f in enumerate(r.faults):
                 L.append("act i=%d a=%d label=%s steps=%s" % (i, a, f.label, f.steps(r.token, r.method)))
         L.append("end")
         return "\n".join(L)
 
     def describe(self):
-        return dict(id=self.id, group=self.group, rt=self.rt, keepalive=self.ka, threads=self.th,
-                    requests=[dict(method=r.method, budget=r.budget, refuse=r.refuse, blackhole=r.blackhole,
+        reqs = self.reqs if len(self.reqs) <= 12 else self.reqs[:12]
+        return dict(id=self.id, group=self.group, rt=self.rt, keepalive=self.ka, threads=self.th, servers=self.nsrv,
+                    lease_ms=self.lease, n_requests=len(self.reqs),
+                    requests=[dict(method=r.method, budget=r.budget, refuse=r.refuse, blackhole=r.blackhole, server=r.srv, thread=r.th,
                                    faults=[dict(kind=f.kind, cls=f.cls, pos=f.pos) for f in r.faults], stop=r.stop)
-                              for r in self.reqs])
+                              for r in reqs])
 
 
 OK = Fault("ok")
